@@ -300,7 +300,7 @@ func expandC05(base Scenario, res *Result, tier string) []Scenario {
 		v.F.StallAt = k
 		v.Class = strings.TrimSuffix(b.Class, "/base") + "/stall"
 		v.SchedSeed = r.Uint64()
-		if last := len(v.Ops) - 2; v.Recover && last >= 2 && v.Ops[last+1].Kind == "close" && needsDevice[v.Ops[last].Kind] && r.IntN(3) == 0 {
+		if last := len(v.Ops) - 2; v.Recover && last >= 2 && v.Ops[last+1].Kind == "close" && needsDevice[v.Ops[last].Kind] && r.IntN(3) != 0 {
 			// a second silence, in front of the last operation: whatever the first timeout left
 			// behind, this operation is entitled to its own timeout again
 			v.Ops = append(append(append([]OpSpec(nil), v.Ops[:last]...), OpSpec{Kind: "stall"}), v.Ops[last:]...)
@@ -471,18 +471,7 @@ func runC05(env *Env, s Scenario) {
 				rec := &sr.Recs[i]
 				op := &sc.Ops[i]
 				if op.Kind == "stall" {
-					// the device falls silent a second time: the operation behind it is entitled
-					// to its own timeout, whatever the first timeout left behind
-					if j := i + 1; j < len(sr.Recs) && !sr.Recs[j].Skipped && !sr.Recs[j].Panicked && sc.Ops[j].Kind != "close" {
-						env.Probe("second-stall-checked")
-						if sr.Recs[j].Err == nil {
-							env.Fail("success-while-the-device-is-silent", "", "op %d (%s) reported success although the device had gone silent again before it", j, sc.Ops[j].Kind)
-						} else {
-							judgeTimeout(j)
-						}
-					}
-
-					break
+					break // judged below
 				}
 				if rec.Skipped || rec.Panicked || op.Kind == "close" {
 					continue
@@ -497,6 +486,23 @@ func runC05(env *Env, s Scenario) {
 		} else {
 			env.Probe("recovery-precondition-not-met")
 		}
+	}
+	// the device falls silent a second time: the operation behind that is entitled to its own
+	// timeout, whatever the first timeout left behind and whatever state the device is in
+	for i := victim + 1; victim >= 0 && i < len(sr.Recs); i++ {
+		if sc.Ops[i].Kind != "stall" || sr.Recs[i].Skipped {
+			continue
+		}
+		if j := i + 1; j < len(sr.Recs) && !sr.Recs[j].Skipped && !sr.Recs[j].Panicked && sc.Ops[j].Kind != "close" {
+			env.Probe("second-stall-checked")
+			if sr.Recs[j].Err == nil {
+				env.Fail("success-while-the-device-is-silent", "", "op %d (%s) reported success although the device had gone silent again before it", j, sc.Ops[j].Kind)
+			} else {
+				judgeTimeout(j)
+			}
+		}
+
+		break
 	}
 }
 
